@@ -449,7 +449,12 @@ class Interp:
             def_env = Env(self, func, func.module, closure)
             b = self.bind(func, args, kwargs, def_env, node, env)
             names = func.params
-            return op(self.opaque[q], *[to_term(b[n]) for n in names])
+            extra = []
+            if func.node.args.vararg is not None:
+                extra.append(to_term(b[func.node.args.vararg.arg]))
+            if func.node.args.kwarg is not None:
+                extra.append(to_term(b[func.node.args.kwarg.arg]))
+            return op(self.opaque[q], *[to_term(b[n]) for n in names], *extra)
         if len(self.stack) >= self.max_depth or self.stack.count(func) >= 2:
             return self.note_unknown(f"inlining bound at {q}", node, env)
         self.functions_visited[q] = self.functions_visited.get(q, 0) + 1
@@ -1680,6 +1685,23 @@ class Interp:
                 v = env.vars[n]
                 if is_term(v) and any(x in v.free_symbols for x in subs):
                     env.vars[n] = v.xreplace(subs)
+        # values assigned on a path that leaves the loop through `break` are visible after the loop
+        for c, be in fb.breaks:
+            rc = self.relative_cond(c, benv.pathcond)
+            brk = op("brk", to_term(rc).xreplace(subs) if subs else to_term(rc), lv)
+            for n in carried_names:
+                if n not in carried_syms:
+                    continue
+                vb = be.vars.get(n, MISSING)
+                if vb is MISSING or not is_term(vb) or vb == carried_syms[n]:
+                    continue
+                fe = final_env.vars.get(n, MISSING)
+                if fe is not MISSING and is_term(fe) and vb == fe:
+                    continue
+                vb2 = vb.xreplace(subs) if subs else vb
+                cur = env.vars.get(n)
+                if is_term(cur):
+                    env.vars[n] = ITE(brk, vb2, cur)
         if st.orelse:
             fo = self.exec_block(st.orelse, env)
             out.env = fo.env
